@@ -128,9 +128,11 @@ PROPERTIES = {
                                      "bodies are abstract JSON documents decoded by a model of protojson.Unmarshal (reset, JSON/proto names, unknown key => error, category checks)",
                                      "TS server (S2) and OpenAPI (S3) halves are not encoded in this check"]),
     "C10": E_ROUNDTRIP(
-        overlay={"gen/roundtrip/zz_verif_c10.go": "harness/c10/c10_errors.go", "gen/roundtrip/zz_verif_c06v.go": "harness/c06/c06_violations_e.go@roundtrip"},
+        overlay={"gen/roundtrip/zz_verif_c10.go": "harness/c10/c10_errors.go", "gen/roundtrip/zz_verif_c06v.go": "harness/c06/c06_violations_e.go@roundtrip",
+                 "gen/roundtrip/zz_verif_c10m.go": "harness/c10/c10_middleware.go", "gen/roundtrip/zz_verif_c01a.go": "harness/c01/c01_common.go"},
         init=[MOD + "/http", "verifmod/gen/roundtrip", "buf.build/gen/go/bufbuild/protovalidate/protocolbuffers/go/buf/validate"],
         harnesses=[dict(func="VerifC10HandlerError", reach=["C10/handler/decided", "C10/handler/hook-wrote", "C10/client/mapped"], quick=dict(budget=300, parts=8), thorough=dict(budget=1200, parts=16)),
+                   dict(func="VerifC10RequestErrors", reach=["C10/request/decided", "C10/request/hook-wrote"], quick=dict(budget=200), thorough=dict(budget=600)),
                    # rule violations of a bound request: every violation the validator produced is listed (incl. several per field path)
                    dict(func="VerifC06ValidationErrorBody", reach=["C06/validation-body/decided"], quick=dict(budget=100), thorough=dict(budget=300))],
         bounds_text={"quick": "handler error in {plain, *Error, *ValidationError(1 violation), custom *NotFoundError, wrapped *Error, empty *ValidationError} with symbolic strings <= 4 x request content type in 6 values x error hook in {none, returns nil, returns message} x {sets header, calls WriteHeader(401|404|409|503), writes body} (all combinations); response fed to the emitted client's handleErrorResponse"},
